@@ -127,6 +127,22 @@ FORMS = [
     # names the library looks up
     "def compare = A; sorted(B)", "def identity = A; sorted(B)",
     "def f(l) do def identity = A; sorted(l) end; f(B)",
+    "compare = A; sorted(B)", "identity = A; sorted(B)",
+    "[compare, identity] = A; sorted(B)",
+    # a value that was changed after it became a key / an element
+    "def m = <<<>>>; m[A] = 1; append(A, B); string(m)",
+    "def m = <<<>>>; m[A] = 1; A[0] = B; for v in m do v end",
+    "def m = <<<>>>; m[A] = 1; A->zz = B; [e for e in entries m]",
+    "def m = <<<>>>; m[A] = 1; append(A, B); m < 1",
+    "def m = <<<>>>; m[A] = 1; append(A, B); (fn(r...) r...)(...m)",
+    "def m = <<<>>>; m[A] = 1; append(A, B); object(m)",
+    "def s = <<A>>; append(A, B); string(s)",
+    # rendering hooks that change the container that is being rendered
+    "def o = <*a = 1*>; o->a = <*_str_ = fn(self) do o->zz = A; 'x' end*>; string(o)",
+    "def m = <<<>>>; def k = <*_str_ = fn(self) do remove(m, A); 'a' end*>; m[k] = 1; m[A] = 2; string(m)",
+    "def l = [1]; l[0] = <*_str_ = fn(self) do append(l, A); 'x' end*>; string(l)",
+    "def s = <<1>>; s !> append(<*_str_ = fn(self) do s !> append(A); 'x' end*>); string(s)",
+    "<*_str_ = A*> < 1", "string(<*_str_ = A*>)",
     # control
     "if A then 1 else 2", "if B then 1 elif A then 2", "while A do break end",
     "error A", "do error B catch A 1 end", "do error A catch all 2 end",
@@ -341,6 +357,9 @@ RICH_STRINGS = [
     "'{x}'", "'{x#zz}'", "'{0#5.2.1}'", "'{1+}'", "'{'", "'}'", "'{}'",
     "'{{0}}'", "'{0}{1}{2}'", "'{0#-5}'", "'{0#05.1}'", "'{0#x}'",
     "'{0#.}'", "'{#}'", "'{def}'", "'{error 1}'", "'{0#08x}'",
+    "'{-1#0999999999999999999999999999999}'", "'{-1#099999999999999999}'",
+    "'{-1#0999999999999999999999999999999.2}'",
+    "'{-255#0999999999999999999999x}'",
     # source text
     "'1 +'", "'def'", "'('", "'fn(x) x'", "'[1,'", "'1 2'", "'<<<'",
     "'require Nope'", "'while FALSE do 1 end'", "'x = 1'", "'checkerlang_secure_mode'",
@@ -379,6 +398,11 @@ RICH_COLLECTIONS = [
     "<*_proto_ = NULL*>", "<*_proto_ = 5, a = 1*>", "<*_str_ = fn(self) 'S'*>",
     "<*_str_ = 1*>", "<*_str_ = fn(self) 5*>", "<*_init_ = 1*>",
     "<*_proto_ = <*_proto_ = NULL*>*>",
+    # a rendering hook that is a library function
+    "<*_str_ = sorted*>", "<*_str_ = eval*>", "<*_str_ = s*>",
+    "<*_str_ = println*>", "<*_str_ = readln*>", "<*_str_ = length*>",
+    # several keys, one value
+    "<<<1 => 'a', 2 => 'a'>>>", "<*a = 1, b = 1*>",
 ]
 RICH_FUNCS = [
     "fn(a, b) a", "fn(a) 'x'", "fn(a, b) 'x'", "fn(a...) a...",
